@@ -244,7 +244,11 @@ def h_direct(c):
     rendered = seq0.to_sequence(qpm=qpm)
     q = sl.quantize_note_sequence(rendered, spq)
     seq1 = ml.Melody()
-    seq1.from_quantized_sequence(q, start, 0, 1, True, False, False)
+    pad = c.params.get('pad', False)
+    if pad:
+      # canonical for pad_end=True: the length is a whole number of bars
+      c.assume(L % spb == 0)
+    seq1.from_quantized_sequence(q, start, 0, 1, True, pad, False)
   c.check(list(seq1) == list(seq0), 'same events after the round trip')
   c.check(seq1.start_step == seq0.start_step and
           seq1.end_step == seq0.end_step, 'same start and end step')
@@ -829,6 +833,10 @@ def jobs(tier):
   add('h_direct', kind='drums', L=6, spq=1, qpm=97.3, start=4, budget=600)
   add('h_direct', kind='melody', L=5, spq=1, qpm=120, budget=600)
   add('h_direct', kind='melody', L=6, spq=1, qpm=97.3, start=4, budget=900)
+  add('h_direct', kind='melody', L=4, spq=1, qpm=120, pad=True, budget=600)
+  if deep:
+    add('h_direct', kind='melody', L=8, spq=1, qpm=97.3, start=4, pad=True,
+        budget=1800)
   add('h_direct', kind='perf', L=0, spq=4, qpm=120, bins=3, budget=600)
   add('h_direct', kind='perf', L=0, spq=12, qpm=93.7, bins=3, start=96,
       metric=True, budget=600)
